@@ -21,10 +21,10 @@ LEVEL_TEXT = ('"Eventually" is restated as bounded progress in virtual time: aft
 LEVEL_NOTE = ('Escalated API failures are excluded here (C12). The essence is computed independently for spec/labels/annotations bodies. Known finding: an essential '
               'change that lands mid-cycle after a sibling handler already finished is absorbed into the last-handled state without that handler seeing it.')
 RULE = ("histories: 1-2 objects, 0-6 external changes at random and cycle-aligned instants, 0-2 restarts with downtime (edits may fall into it), optional kill at a "
-        "random write (before/after it is applied) with automatic restart; non-trivial = a change during downtime, a kill, or >=2 essential changes; distinct = hash of "
+        "random write (before/after it is applied) with automatic restart, optional pause by a higher-priority peer, optional worker_limit=1, optional daemons; non-trivial = a change during downtime, a kill, or >=2 essential changes; distinct = hash of "
         "(handler ids+outcomes sequence, incarnations)")
 ASSUMPTIONS = ["fake API server semantics", "watch echo lag below the consistency timeout", "quiescence window > max scripted delay + consistency timeout + idle timeout"]
-GATES = {'quiescent_runs': 50, 'downtime_edit_runs': 5, 'kill_runs': 5, 'objects_checked': 50, 'accumulated_change_checks': 3}
+GATES = {'quiescent_runs': 50, 'downtime_edit_runs': 5, 'kill_runs': 5, 'objects_checked': 50, 'accumulated_change_checks': 3, 'paused_runs': 10, 'worker_limited_runs': 10}
 
 
 def directed() -> list[dict[str, Any]]:
@@ -69,6 +69,9 @@ def gen_cases(tier: str, seed: int):
         d['quiet'] = 25.0
         if rng.random() < 0.4:
             add_downtime_edits(rng, d)
+        if rng.random() < 0.15:
+            # fewer workers than objects: a worker that sleeps out a retry delay keeps its slot; the others must still be served in the end
+            d.setdefault('settings', {})['queueing__worker_limit'] = 1
         if rng.random() < 0.3:
             # background handlers whose coming and going adds/removes the finalizer while change handlers are in progress
             d['handlers'].append({'kind': 'daemon', 'id': 'dm', 'persona': rng.choice([{'type': 'selfexit', 'after': rng.choice([0.5, 2.0, 5.0])}, {'type': 'obedient'}]),
@@ -77,6 +80,13 @@ def gen_cases(tier: str, seed: int):
             # before fix dcf2609 kopf re-ran finished deletion handlers at API speed while daemons were stopping (DESIGN O1): with requests
             # of 1 us that is a million cycles per virtual second; 5 ms per request keeps such runs (e.g. of a tree that reverts it) finite
             d['latency'] = 0.005
+        if rng.random() < 0.2 and not any(op[1] in ('stop_wait',) for op in d['timeline']) and not d.get('faults'):
+            # a pause imposed by a higher-priority peer somewhere in the history: whatever changed or was in progress meanwhile is caught up afterwards
+            d['peering'] = {'name': 'default'}
+            ts = [op[0] for op in d['timeline']]
+            t1 = round(rng.uniform(min(ts) + 0.5, max(ts) + 2.0), 3)
+            t2 = round(t1 + rng.choice([0.3, 2.0, 7.0]), 3)
+            d['timeline'] = sorted(d['timeline'] + [[t1, 'peer', 'boss', 100, 60], [t2, 'unpeer', 'boss']], key=lambda x: x[0])
         cases.append({'name': f'rnd{i}', 'desc': d})
     return cases
 
@@ -158,6 +168,8 @@ def run_case(case: dict[str, Any]) -> dict[str, Any]:
                 viol.append({'mech': 'downtime-change-not-accumulated', 'msg': f'{uid}: the changes made during one downtime were handled in {len(closes)} update cycles', 'witness': None})
     cov['downtime_edit_runs'] = int(edits_in_down > 0)
     cov['accumulated_change_checks'] = acc
+    cov['paused_runs'] = int(any(e['k'] == 'note' and e['what'] == 'toggle' and e.get('to') is True for e in w.events))
+    cov['worker_limited_runs'] = int(bool((desc.get('settings') or {}).get('queueing__worker_limit')))
     changing = [c for c in ix.calls if c['kind'] in CHANGING]
     incs = sorted({c['inc'] for c in changing})
     order = ';'.join(f"{c['h']}:{ix.rets.get(c['seq'], {}).get('outcome')}:{incs.index(c['inc'])}" for c in changing)
